@@ -442,7 +442,7 @@ def render_const_items(d, table, surface):
         L.append("    { const C: %s = %s::%s; const R: u128 = %s; let rt = %s; if R != rt { o.line(\"CONST-DIFF %s raw_value\"); } else { o.line(\"CONST-OK %s raw_value\"); } }" % (
             name, name, v["name"], unmk_expr(d["size"], "C.raw_value()"), unmk_expr(d["size"], "%s::%s.raw_value()" % (name, v["name"])), name, name))
         x = v["value"]
-        L.append("    { const C: bool = { let r = %s::new_with_raw_value(%s); %s }; let rt = { let r = %s::new_with_raw_value(%s); %s }; if C != rt || !C { o.line(\"CONST-DIFF %s new_with_raw_value\"); } else { o.line(\"CONST-OK %s new_with_raw_value\"); } }" % (
+        L.append("    { const C: bool = { let r = %s::new_with_raw_value(%s); %s }; let rt = { let r = %s::new_with_raw_value(%s); %s }; if C != rt { o.line(\"CONST-DIFF %s new_with_raw_value\"); } else { o.line(\"CONST-OK %s new_with_raw_value\"); } }" % (
             name, mk_expr(d["size"], "%du128" % x),
             "matches!(r, Ok(%s::%s))" % (name, v["name"]) if d["exh"] != "true" else "matches!(r, %s::%s)" % (name, v["name"]),
             name, mk_expr(d["size"], "%du128" % x),
